@@ -201,7 +201,7 @@ func (c18) Gen(r *Rng, tier string, emit func(string, Tok)) {
 	// every optional part of the adaptation field goes through the underlying writer: PCR, OPCR, splice countdown,
 	// private data, and an extension with legal time window, piecewise rate and seamless splice (DTS_next_AU) -
 	// in the first packet of a WriteData and in a WritePacket
-	for _, size := range []int{10, 184, 3*184 - 100} {
+	for _, size := range scaleList(tier, []int{3*184 - 100}, []int{10, 184, 3*184 - 100}) {
 		fullAF := func() *astits.PacketAdaptationField {
 			return &astits.PacketAdaptationField{
 				HasPCR: true, PCR: &astits.ClockReference{Base: 5, Extension: 7}, RandomAccessIndicator: true,
